@@ -1600,17 +1600,34 @@ class CCVS(DependentSource):
         mna._D[m1, m2] -= H
 
         ccpt = self.cct.elements[cname]
-        if ccpt.is_voltage_source:
+        if ccpt.is_voltage_source or ccpt.need_branch_current:
+            # The controlling component stamps its own branch current.
             return
+
+        if not isinstance(ccpt, RC):
+            raise ValueError('Cannot determine the control current for %s'
+                             ' through %s' % (self, cname))
+
+        # The controlling component (R, C, Y, ...) is stamped as an
+        # admittance and so has no branch current of its own.  Add an
+        # equation that defines the control current as the current
+        # through it, I = Y (V3 - V4) - Isc.
+
         # Controlling node indices
         n3, n4 = [mna._node_index(name) for name in ccpt.node_names[0:2]]
 
+        if ccpt.type == 'C' and mna.kind == 'dc':
+            Y = eps
+        else:
+            Y = ccpt.Y.sympy
+
+        mna._D[m2, m2] += 1
         if n3 >= 0:
-            mna._B[n3, m2] += 1
-            mna._C[m2, n3] += 1
+            mna._C[m2, n3] -= Y
         if n4 >= 0:
-            mna._B[n4, m2] -= 1
-            mna._C[m2, n4] -= 1
+            mna._C[m2, n4] += Y
+        if mna.kind == 'ivp' and ccpt.cpt.has_ic:
+            mna._Es[m2] -= ccpt.Isc.sympy
 
     def _kill(self):
         newopts = self.opts.copy()
